@@ -17,9 +17,67 @@ type c13run struct {
 	cap   int
 	muted bool
 	next  int
-	// a stack that served as the source of MakeFromSequence must stay what it was
-	src     col.StackLike[int]
-	srcWant string
+	// a collection that served as the source of MakeFromSequence must stay what it
+	// was, and changing it in place afterwards must not reach the stack
+	src     col.Sequential[int]
+	srcKind string
+	srcWant []int
+}
+
+// poke changes the source collection in place (whatever its kind offers).
+func (r *c13run) poke(rng *core.Rng) string {
+	n := len(r.srcWant)
+	switch s := r.src.(type) {
+	case col.ListLike[int]:
+		switch {
+		case n > 0 && rng.Chance(1, 2):
+			i := rng.Range(1, n)
+			r.next++
+			s.SetValue(i, -r.next)
+			r.srcWant[i-1] = -r.next
+			return "SetValue"
+		case n > 1 && rng.Chance(1, 2):
+			s.ReverseValues()
+			for i, j := 0, n-1; i < j; i, j = i+1, j-1 {
+				r.srcWant[i], r.srcWant[j] = r.srcWant[j], r.srcWant[i]
+			}
+			return "ReverseValues"
+		default:
+			r.next++
+			s.AppendValue(-r.next)
+			r.srcWant = append(r.srcWant, -r.next)
+			return "AppendValue"
+		}
+	case col.ArrayLike[int]:
+		if n == 0 {
+			return ""
+		}
+		if n > 1 && rng.Chance(1, 2) {
+			s.ReverseValues()
+			for i, j := 0, n-1; i < j; i, j = i+1, j-1 {
+				r.srcWant[i], r.srcWant[j] = r.srcWant[j], r.srcWant[i]
+			}
+			return "ReverseValues"
+		}
+		i := rng.Range(1, n)
+		r.next++
+		s.SetValue(i, -r.next)
+		r.srcWant[i-1] = -r.next
+		return "SetValue"
+	case col.StackLike[int]:
+		if n > 0 && rng.Chance(1, 2) {
+			s.RemoveTop()
+			r.srcWant = r.srcWant[1:]
+			return "RemoveTop"
+		}
+		if n < int(s.GetCapacity()) {
+			r.next++
+			s.AddValue(-r.next)
+			r.srcWant = append([]int{-r.next}, r.srcWant...)
+			return "AddValue"
+		}
+	}
+	return ""
 }
 
 func (r *c13run) observe(after string) {
@@ -90,10 +148,19 @@ func (r *c13run) construct(rng *core.Rng) bool {
 	case 2, 3, 4, 5:
 		var seq col.Sequential[int]
 		if how == 5 {
-			// another stack as the source: the two must not share anything afterwards
-			src := S.MakeFromArray(vs)
-			r.src, r.srcWant = src, fmt.Sprint(vs)
-			r.Log("Stack.MakeFromSequence(stack %v)", vs)
+			// another collection as the source: the two must not share anything afterwards
+			r.srcKind = []string{"stack", "list", "array"}[rng.Intn(3)]
+			switch r.srcKind {
+			case "stack":
+				r.src = S.MakeFromArray(vs)
+			case "list":
+				r.src = col.List[int](Notation).MakeFromArray(vs)
+			default:
+				r.src = col.Array[int](Notation).MakeFromArray(vs)
+			}
+			r.srcWant = Clone(vs)
+			r.Log("Stack.MakeFromSequence(%s %v)", r.srcKind, vs)
+			src := r.src
 			pan, _, msg = Try(func() { r.real = S.MakeFromSequence(src) })
 		} else if how == 2 {
 			r.Log("Stack.MakeFromArray(%v)", vs)
@@ -182,10 +249,19 @@ func (r *c13run) step(rng *core.Rng) {
 	r.observe(op)
 	if r.src != nil && !r.Failed {
 		r.Guard(op, func() {
-			if got := fmt.Sprint(r.src.AsArray()); got != r.srcWant {
-				r.Fail(op+"/constructor-argument-changed", "the stack passed to MakeFromSequence changed: now %s, was %s", got, r.srcWant)
+			if got := fmt.Sprint(r.src.AsArray()); got != fmt.Sprint(r.srcWant) {
+				r.Fail(op+"/constructor-argument-changed", "the %s passed to MakeFromSequence changed: now %s, expected %v", r.srcKind, got, r.srcWant)
 			}
 		})
+		if !r.Failed && rng.Chance(1, 4) {
+			var what string
+			r.Guard("poke", func() { what = r.poke(rng) })
+			if what != "" && !r.Failed {
+				r.Log("(source %s).%s", r.srcKind, what)
+				r.observe("source." + what)
+				r.C.Cover("stack.source-changed-in-place." + r.srcKind)
+			}
+		}
 	}
 	out := "ok"
 	if !returned {
